@@ -8,8 +8,8 @@ import gens
 import pvtools
 import procoracle as po
 
-FAMILIES = ['mixture', 'solver', 'process', 'curve', 'fit']
-BRIDGES = ['br_pp_', 'br_act_', 'br_to_', 'br_flux_', 'br_sepfactor_', 'br_permcomp_', 'br_proc_', 'br_nonideal_', 'br_curve_', 'br_metric_', 'br_measurements_']
+FAMILIES = ['mixture', 'solver', 'process', 'curve', 'fit', 'nicurve']
+BRIDGES = ['br_nicurve_', 'br_pp_', 'br_act_', 'br_to_', 'br_flux_', 'br_sepfactor_', 'br_permcomp_', 'br_proc_', 'br_nonideal_', 'br_curve_', 'br_metric_', 'br_measurements_']
 PROPS_V = 'Props/C07.v'
 EXTRA_TARGETS = ['Model/NumCheck.vo']
 BUDGET = {'quick': 120, 'thorough': 3000}
@@ -21,7 +21,7 @@ LEVEL_TEXT = ('Coq theorems for all compositions in [0,1] and positive molar mas
               'the flux solver (by extensionality of the fixed-point loop), the separation-factor helper, measurement points and all four process entry points return '
               'identical results for both encodings; process models report mass fractions. Tie: bridges of every entry point in both bases (mixture, solver, curve, fit and '
               'process families incl. a molar initial feed and molar curve sets).')
-LEVEL_NOTE = 'non_ideal_diffusion_curve is covered by the sampled twins only; binary64 abstracted to reals'
+LEVEL_NOTE = 'binary64 abstracted to reals'
 TECHNIQUE = 'Coq proof (rewriting with the bijection lemmas, loop extensionality, induction on steps) + symbolic-trace bridge lemmas in both bases'
 DESIGN_REF = 'DESIGN.md section 6 C07'
 
